@@ -915,6 +915,8 @@ def rule_unit_interval(crate, prop, tier):
 
 
 # ---------------------------------------------------------------------------
+HASH_ORDER_EXPOSING = {"iter", "iter_mut", "into_iter", "keys", "values", "values_mut", "into_keys", "into_values", "drain",
+                       "extract_if", "retain", "difference", "symmetric_difference", "intersection", "union"}
 DENY_PREFIXES = ("std::time::", "std::collections::hash", "std::hash::random", "std::thread::current",
                  "std::env::", "std::process::id", "std::thread::functions::current", "core::hash::sip",
                  "std::sys::random", "std::random", "std::thread::functions::sleep")
@@ -938,16 +940,23 @@ def rule_nondet(crate, prop, tier):
             path = ev["fn"]["path"]
             res = ev["fn"].get("resolved", "")
             bad = any(path.startswith(d) or res.startswith(d) for d in DENY_PREFIXES)
+            if bad and (path.startswith("std::collections::hash") or res.startswith("std::collections::hash")):
+                # a hash container is nondeterministic only through its iteration order; membership, insertion, removal
+                # and set comparisons give the same answers for every hasher state
+                last = path.split("::")[-1]
+                bad = last in HASH_ORDER_EXPOSING
             if bad:
                 o.check(False, prog.pretty[p], "ambient:" + path.split("::")[-1],
                         "call of %s: an ambient source of nondeterminism" % path, ev["span"])
             if ev["key"] == AP_KEY:
                 ap_fns.add(f_.get("root", p))
         # HashMap / HashSet typed locals
-        for l in f_["locals"]:
-            if ty_contains(l["ty"], lambda x: x["k"] == "adt" and x.get("name") in ("HashMap", "HashSet", "RandomState")):
-                o.check(False, prog.pretty[p], "hash-container", "a HashMap/HashSet (randomised iteration order) is used", f_["span"])
-                break
+        # iteration over a hash container through the Iterator / IntoIterator traits
+        for ev in an.events:
+            if ev["k"] == "call" and ev["key"] in ("core::iter::traits::collect::IntoIterator::into_iter",) and ev["fn"]:
+                ta = ev["fn"].get("targs", [])
+                if ta and ty_contains(ta[0], lambda x: x["k"] == "adt" and x.get("name") in ("HashMap", "HashSet")):
+                    o.check(False, prog.pretty[p], "hash-container", "a HashMap/HashSet is iterated (randomised iteration order)", ev["span"])
     o.check(True, "crate", "scanned", "")
     # thread-count taint into PRNG seeds
     for root in sorted(ap_fns):
